@@ -38,7 +38,11 @@ class SimForeign(Exception):
 
 FOREIGN = {"overflow": OverflowError, "key": KeyError, "type": TypeError,
            "zerodiv": ZeroDivisionError, "lookup": LookupError,
-           "oserror": OSError, "custom": SimForeign}
+           "oserror": OSError, "custom": SimForeign,
+           # (a datatype that recurses too deeply on its own account)
+           "recursion": RecursionError, "memory": MemoryError,
+           "assertion": AssertionError, "attribute": AttributeError,
+           "index": IndexError}
 
 
 def _fault(seam, counter):
